@@ -111,6 +111,10 @@ def declared_dests(prog, ci, setup):
         for c in [x for x in ast.walk(call.node) if isinstance(x, ast.Call)]:
             if call_name(c) == "setattr" and len(c.args) >= 2 and isinstance(const(c.args[1]), str):
                 decl.setdefault(const(c.args[1]), (c, False))
+            elif call_name(c) == "setattr" and len(c.args) >= 2 and isinstance(c.args[1], ast.Name):
+                # `for name, value in (("pigeons", p), ("holes", h)): setattr(ns, name, value)`: the names a literal table runs over
+                for name in _loop_constants(call.node, c.args[1].id):
+                    decl.setdefault(name, (c, False))
             if method_name(c) == "add_argument":
                 d = dest_of(c)
                 if d:
@@ -118,15 +122,68 @@ def declared_dests(prog, ci, setup):
     return decl
 
 
-def reads_of(build):
-    """attribute names read from the args parameter: args.X and hasattr(args, 'X')"""
+def _loop_constants(fnode, var):
+    """the string constants variable ``var`` takes when it is bound only as (a component of) the target of `for` loops over literal
+    tuples / lists; [] when it is bound in any other way"""
+    out, other = [], False
+    for n in ast.walk(fnode):
+        if isinstance(n, ast.For):
+            t = n.target
+            idx = None
+            if isinstance(t, ast.Name) and t.id == var:
+                idx = -1
+            elif isinstance(t, (ast.Tuple, ast.List)):
+                for i, e in enumerate(t.elts):
+                    if isinstance(e, ast.Name) and e.id == var:
+                        idx = i
+            if idx is None:
+                continue
+            if not isinstance(n.iter, (ast.Tuple, ast.List)):
+                return []
+            for row in n.iter.elts:
+                cell = row if idx == -1 else (row.elts[idx] if isinstance(row, (ast.Tuple, ast.List)) and idx < len(row.elts) else None)
+                if cell is None or not isinstance(const(cell), str):
+                    return []
+                out.append(const(cell))
+        elif isinstance(n, ast.Name) and n.id == var and isinstance(n.ctx, ast.Store):
+            other = True
+    # (the Store occurrences inside the loop targets were counted as "other" too: subtract them)
+    targets = sum(1 for n in ast.walk(fnode) if isinstance(n, ast.For) for e in ast.walk(n.target) if isinstance(e, ast.Name) and e.id == var)
+    stores = sum(1 for n in ast.walk(fnode) if isinstance(n, ast.Name) and n.id == var and isinstance(n.ctx, ast.Store))
+    return out if stores == targets else []
+
+
+def reads_of(build, prog=None):
+    """attribute names read from the args parameter: args.X and hasattr(args, 'X'); with ``prog``, also what the functions of the
+    package read from it when the whole namespace is handed to them (`helper(args)`, `self._pick(args)`), three calls deep"""
+    from ..loader import FuncInfo
     ap = build.params[0] if build.name == "build_formula" else build.params[1]
     reads = {}
-    for n in walk_shallow(build.node):
-        if isinstance(n, ast.Attribute) and isinstance(n.value, ast.Name) and n.value.id == ap:
-            reads.setdefault(n.attr, n)
-        if isinstance(n, ast.Call) and call_name(n) in ("hasattr", "getattr") and len(n.args) >= 2 and src(n.args[0]) == ap and isinstance(const(n.args[1]), str):
-            reads.setdefault(const(n.args[1]), n)
+
+    def scan(fi, pname, depth):
+        for n in walk_shallow(fi.node):
+            if isinstance(n, ast.Attribute) and isinstance(n.value, ast.Name) and n.value.id == pname:
+                reads.setdefault(n.attr, n)
+            if isinstance(n, ast.Call) and call_name(n) in ("hasattr", "getattr") and len(n.args) >= 2 and src(n.args[0]) == pname and isinstance(const(n.args[1]), str):
+                reads.setdefault(const(n.args[1]), n)
+            if prog is not None and depth < 3 and isinstance(n, ast.Call):
+                callee, shift = None, 0
+                if isinstance(n.func, ast.Name):
+                    r = prog.resolve_global(fi.module, n.func.id)
+                    callee = r if isinstance(r, FuncInfo) else None
+                elif isinstance(n.func, ast.Attribute) and isinstance(n.func.value, ast.Name) and n.func.value.id in ("self", "cls") and fi.cls is not None:
+                    r = prog.lookup_method(fi.cls, n.func.attr)
+                    callee, shift = (r, 1) if isinstance(r, FuncInfo) else (None, 0)
+                if callee is None or callee is fi:
+                    continue
+                cps = callee.params
+                for i, a_ in enumerate(n.args):
+                    if isinstance(a_, ast.Name) and a_.id == pname and i + shift < len(cps):
+                        scan(callee, cps[i + shift], depth + 1)
+                for k in n.keywords:
+                    if k.arg in cps and isinstance(k.value, ast.Name) and k.value.id == pname:
+                        scan(callee, k.arg, depth + 1)
+    scan(build, ap, 0)
     return ap, reads
 
 
@@ -134,7 +191,7 @@ def check_dest_agree(R, prog, helpers):
     n = 0
     for ci, setup, build in sorted(helpers, key=lambda h: h[0].name):
         decl = declared_dests(prog, ci, setup)
-        ap, reads = reads_of(build)
+        ap, reads = reads_of(build, prog)
         n += len(decl)
         for name, node in sorted(reads.items()):
             inst = "%s reads %s.%s" % (ci.name, ap, name)
